@@ -71,47 +71,53 @@ def validType (m : Mode) (c : Nat) : Bool :=
   [100, 105, 117, 111, 120, 88, 101, 69, 102, 70, 103, 71, 99, 114, 115, 97].contains c ||
   (m == .bytes && c == 98)
 
-/-- One conversion specifier; `cs` is the template after the `%`, `n` the length of the whole
-    template (the index of a character is `n` minus the length of the text from it on). -/
+/-- optional mapping key `(…)` with balanced inner parentheses -/
+def pyKey (cs : List Nat) : PyRes (Option (List Nat) × List Nat) :=
+  match cs with
+  | 40 :: r =>
+    match closeAt 0 r with
+    | none => .err .incompleteKey
+    | some k => .ok (some (r.take k), r.drop (k + 1))
+  | _ => .ok (none, cs)
+
+/-- optional `.` with an optional quantity (an `int`); a lone `.` is precision 0 -/
+def pyPrecision (cs : List Nat) : PyRes (Option Quantity × List Nat) :=
+  match cs with
+  | 46 :: r =>
+    match pyQuantity i32Max r with
+    | .err e => .err e
+    | .ok (q, r) => .ok (some (q.getD (.amount 0)), r)
+  | _ => .ok (none, cs)
+
+/-- optional length modifier `h`, `l` or `L`, ignored -/
+def pyLength (cs : List Nat) : List Nat :=
+  match cs with
+  | c :: r => if isLength c then r else c :: r
+  | [] => []
+
+/-- the conversion type; `n` is the length of the whole template (the index of a character is `n`
+    minus the length of the text from it on) -/
+def pyType (m : Mode) (n : Nat) (cs : List Nat) : PyRes (Nat × List Nat) :=
+  match cs with
+  | [] => .err .incomplete
+  | c :: r => if validType m c then .ok (c, r) else .err (.unsupported c (n - (c :: r).length))
+
+/-- One conversion specifier; `cs` is the template after the `%`. -/
 def pyConv (m : Mode) (n : Nat) (cs : List Nat) : PyRes (PyConv × List Nat) :=
-  -- mapping key
-  let keyPart : PyRes (Option (List Nat) × List Nat) :=
-    match cs with
-    | 40 :: r =>
-      match closeAt 0 r with
-      | none => .err .incompleteKey
-      | some k => .ok (some (r.take k), r.drop (k + 1))
-    | _ => .ok (none, cs)
-  match keyPart with
+  match pyKey cs with
   | .err e => .err e
   | .ok (key, cs) =>
-    -- flags
     let flags := flagsOf (cs.takeWhile isFlag)
-    let cs := cs.dropWhile isFlag
-    -- width (a `Py_ssize_t`)
-    match pyQuantity isizeMax cs with
+    -- width is a `Py_ssize_t`
+    match pyQuantity isizeMax (cs.dropWhile isFlag) with
     | .err e => .err e
     | .ok (width, cs) =>
-      -- precision (an `int`)
-      let precPart : PyRes (Option Quantity × List Nat) :=
-        match cs with
-        | 46 :: r =>
-          match pyQuantity i32Max r with
-          | .err e => .err e
-          | .ok (q, r) => .ok (some (q.getD (.amount 0)), r)
-        | _ => .ok (none, cs)
-      match precPart with
+      match pyPrecision cs with
       | .err e => .err e
       | .ok (prec, cs) =>
-        -- length modifier, ignored
-        let cs := match cs with
-          | c :: r => if isLength c then r else cs
-          | [] => cs
-        match cs with
-        | [] => .err .incomplete
-        | c :: r =>
-          if validType m c then .ok ({ key, flags, width, prec, type := c }, r)
-          else .err (.unsupported c (n - cs.length))
+        match pyType m n (pyLength cs) with
+        | .err e => .err e
+        | .ok (c, r) => .ok ({ key, flags, width, prec, type := c }, r)
 
 /-- what a template is made of, character by character -/
 inductive Item where
